@@ -66,6 +66,12 @@ class TArr:
         labs = tuple(new_label() for _ in range(rank))
         return TArr([(name, labs)], list(labs))
 
+    @staticmethod
+    def diag_sym(name):
+        """a diagonal matrix diag(name): one factor on one index, two equal open legs"""
+        l = new_label()
+        return TArr([(name, (l,))], [l, l])
+
     @property
     def rank(self):
         return len(self.out)
@@ -141,6 +147,10 @@ class TArr:
             if isinstance(other, (Cx, complex, float)) or getattr(ip, 'tsum_scalars', False):
                 return TSum.of(self).scaled(other)
             return TArr(self.factors, self.out, self.coeff + (scalar_name(other),))
+        if opname == 'div' and reflected and isinstance(other, int) and other == 1 and self.rank == 1 and not self.coeff \
+                and all(len(ls) == 1 and ls[0] == self.out[0] for _, ls in self.factors):
+            # 1 / (vector that is a product of diagonal factors): entry-wise reciprocal, written factor^-1
+            return TArr([(inv_name(s_), ls) for s_, ls in self.factors], self.out)
         raise Unsupported('tensor operator %s' % opname)
 
 
@@ -226,6 +236,27 @@ def sum_equal(x, y):
     return not ys
 
 
+def inv_name(s):
+    return s[:-3] if s.endswith('^-1') else s + '^-1'
+
+
+def cancel_inverses(t):
+    """a diagonal factor and its reciprocal on the same index multiply to one"""
+    fs = list(t.factors)
+    changed = True
+    while changed:
+        changed = False
+        for i, (s_, ls) in enumerate(fs):
+            if len(ls) != 1:
+                continue
+            j = next((k for k, (s2, l2) in enumerate(fs) if k != i and s2 == inv_name(s_) and tuple(l2) == tuple(ls)), None)
+            if j is not None:
+                fs = [f for k, f in enumerate(fs) if k not in (i, j)]
+                changed = True
+                break
+    return TArr(fs, t.out, t.coeff) if len(fs) != len(t.factors) else t
+
+
 def conj_name(s):
     return s[:-1] if s.endswith('*') else s + '*'
 
@@ -271,6 +302,7 @@ def equal(x, y):
     """term equality up to relabelling of indices and matching of equal-named factors"""
     if not isinstance(x, TArr) or not isinstance(y, TArr):
         return False
+    x, y = cancel_inverses(x), cancel_inverses(y)
     if x.coeff != y.coeff or len(x.out) != len(y.out) or len(x.factors) != len(y.factors):
         return False
     xs = sorted(range(len(x.factors)), key=lambda i: (x.factors[i][0], len(x.factors[i][1])))
@@ -340,7 +372,21 @@ class TEdge:
             return
         raise Unsupported('edge attribute assignment %s' % attr)
 
+    def disconnect(self):
+        if self.is_dangling() or not self.ends:
+            raise PyRaise(ExcVal('ValueError', ('cannot disconnect a dangling edge',)))
+        new = []
+        for n, ax in self.ends:
+            e = TEdge(n, ax)
+            n.edges[ax] = e
+            new.append(e)
+        self.ends = []
+        return tuple(new)
+
     def pv_getattr(self, ip, attr):
+        from .interp import Builtin
+        if attr == 'disconnect':
+            return Builtin('Edge.disconnect', lambda ip_, a, k: self.disconnect())
         if attr == 'name':
             return self.name
         if attr == 'dimension':
@@ -362,8 +408,7 @@ class TNode:
     def tensor_value(self):
         if getattr(self, 'factor_of_svd', False):
             return self.arr                   # (only its diagonal / shape is ever read: the singular values)
-        if any(not e.is_dangling() for e in self.edges):
-            raise Unsupported('get_tensor of a node with connected edges')
+        # (tensornetwork returns the node's own tensor, axes in the order of its edges, connected or not)
         return self.arr
 
     def pv_getitem(self, ip, idx):
@@ -406,6 +451,8 @@ class TNode:
         if attr == 'copy':
             # Node.copy(): same tensor, fresh dangling edges
             return Builtin('Node.copy', lambda ip_, a, k: TNode(self.arr, self.name))
+        if attr == 'get_all_nondangling':
+            return Builtin('Node.get_all_nondangling', lambda ip_, a, k: [e for e in self.edges if not e.is_dangling()])
         if attr == 'get_rank':
             return Builtin('Node.get_rank', lambda ip_, a, k: self.arr.rank)
         if attr == 'get_dimension':
@@ -428,6 +475,33 @@ class TNode:
         raise Unsupported('node operator %s' % opname)
 
 
+def _leaves(l):
+    if isinstance(l, tuple):
+        for x in l[1:]:
+            if isinstance(x, str) and l[0] == 'half':
+                continue
+            yield from _leaves(x)
+    else:
+        yield l
+
+
+def _leaf_pairs(la, lb):
+    """pairs of component labels of two merged ('flat') legs of the same shape, None if the shapes differ"""
+    if isinstance(la, tuple) != isinstance(lb, tuple):
+        return None
+    if not isinstance(la, tuple):
+        return [(la, lb)]
+    if la[0] != 'flat' or lb[0] != 'flat' or len(la) != len(lb):
+        return None
+    out = []
+    for x, y in zip(la[1:], lb[1:]):
+        p = _leaf_pairs(x, y)
+        if p is None:
+            return None
+        out += p
+    return out
+
+
 def contract_between(a, b):
     """tensornetwork.contract_between(a, b): contracts every edge shared by a and b; the new
     node's axes are a's remaining edges (in order) followed by b's remaining edges."""
@@ -447,10 +521,9 @@ def contract_between(a, b):
         lb = b.arr.out[a2 if n2 is b else a1]
         if isinstance(la, tuple) or isinstance(lb, tuple):
             # two merged legs with the same factorisation contract factor by factor
-            if not (isinstance(la, tuple) and isinstance(lb, tuple) and la[0] == lb[0] == 'flat' and len(la) == len(lb)
-                    and not any(isinstance(x, tuple) for x in la[1:] + lb[1:])):
+            pairs = _leaf_pairs(la, lb)
+            if pairs is None:
                 raise Unsupported('contraction of a reshaped leg')
-            pairs = list(zip(la[1:], lb[1:]))
         else:
             pairs = [(la, lb)]
         for xa, xb in pairs:
@@ -458,7 +531,7 @@ def contract_between(a, b):
             if ra != rb:
                 parent[rb] = ra
     labs = set(l for _, ls in a.arr.factors + b.arr.factors for l in ls) | set(l for l in a.arr.out + b.arr.out if not isinstance(l, tuple))
-    labs |= set(x for l in a.arr.out + b.arr.out if isinstance(l, tuple) and l[0] == 'flat' for x in l[1:] if not isinstance(x, tuple))
+    labs |= set(x for l in a.arr.out + b.arr.out if isinstance(l, tuple) for x in _leaves(l))
     ident = {l: find(l) for l in labs if find(l) != l}
     sa, sb = a.arr.substitute(ident), b.arr.substitute(ident)
     keep_a = [i for i, e in enumerate(a.edges) if e not in shared]
@@ -518,7 +591,7 @@ def split_node_full_svd(ip, node, left_edges, right_edges, **trunc):
     perm = [next(i for i, e in enumerate(node.edges) if e is x) for x in order]
     nl, nr = len(left_edges), len(right_edges)
     arr = node.arr.permute(perm)
-    if any(isinstance(l, tuple) for l in arr.out[nl:]) and nr > 1:
+    if any(isinstance(l, tuple) and l[0] != 'flat' for l in arr.out[nl:]):
         raise Unsupported('split_node_full_svd: merging reshaped legs')
 
     def compound(labels):
@@ -538,8 +611,8 @@ def split_node_full_svd(ip, node, left_edges, right_edges, **trunc):
     b1, b2 = edge(), edge()
     # u: the node, its right axes merged into the new bond
     u = mk(TArr(arr.factors, list(arr.out[:nl]) + [compound(list(arr.out[nl:]))], arr.coeff), left_edges + [b1])
-    p = [new_label() for _ in range(nr)]
-    q = [new_label() for _ in range(nr)]
+    p = [map_entry(lambda _: new_label(), l) for l in arr.out[nl:]]       # fresh labels of the same (possibly merged) shape
+    q = [map_entry(lambda _: new_label(), l) for l in arr.out[nl:]]
     s_node = TNode.__new__(TNode)
     s_node.arr, s_node.name, s_node.edges = TArr([], [compound(p), compound(p)]), None, [b1, b2]
     s_node.factor_of_svd = True
@@ -737,6 +810,23 @@ def install(R):
             k = next((i for i, n in enumerate(rest) if any((not e.is_dangling()) and any(m is n for m, _ in e.ends) for e in c.edges)), 0)
             c = contract_between(c, rest.pop(k))
         return c
+    @model
+    def m_optimal(ip, args, kw):
+        nodes = list(kw.get('nodes', args[0] if args else []))
+        c = m_greedy(ip, [nodes], {})
+        order = kw.get('output_edge_order', args[1] if len(args) > 1 else None)
+        if order is not None:
+            order = list(order)
+            if sorted(map(id, order)) != sorted(map(id, c.edges)):
+                raise PyRaise(ExcVal('ValueError', ('output edges are not the dangling edges of the contracted network',)))
+            perm = [next(i for i, e in enumerate(c.edges) if e is x) for x in order]
+            c.arr = c.arr.permute(perm)
+            c.edges = order
+            for ax, e in enumerate(c.edges):
+                e.ends = [(n, (ax if n is c else a_)) for n, a_ in e.ends]
+        return c
+    R.lib_models['tensornetwork.contractors.optimal'] = m_optimal
+    R.lib_models['tensornetwork.contractors.auto'] = m_optimal
     R.lib_models['tensornetwork.contract'] = m_contract_edge
     R.lib_models['tensornetwork.contractors.greedy'] = m_greedy
     R.lib_models['tensornetwork.split_edge'] = m_split_edge
